@@ -3,8 +3,29 @@
     [stump_add_refines] (Proofs/StumpAdd.v) covers the roots and the leaf count computed by the
     mirror [stump_add] (Model/Verify.v).  This file covers the two other components:
 
-    - Part 1: [rootsToDestroy] equals the declarative [to_destroy] ([rootsToDestroy_spec], T1) and
-      the third component of [stump_add] equals [to_destroy] ([stump_add_destroyed], T2). *)
+    - T1 [rootsToDestroy_spec]: [rootsToDestory] computes the declarative [to_destroy];
+      T2 [stump_add_destroyed]: so does the third component of [stump_add].
+    - T3 [stump_add_collects]: the second component of [stump_add] (code as it is now) is the
+      declarative [new_add]: every added leaf and both children of every node created by the
+      additions, at their positions in the post-block forest, ascending.
+      [stump_add_collects_layout]: the same from one primitive distinctness hypothesis.
+      [stump_add_update_data]: all three components against [spec_update_data].
+    - [new_add_pos_nodup]: the listed positions are pairwise distinct (no hypothesis).
+
+    Structure:
+    - Part 1: one chain of [rootsToDestory] against [trailing_destroyed] and [carry]; T1, T2.
+    - Part 2: coordinates (row, offset); [lift1]/[liftc] = the lifting loop of [Stump.add] on
+      coordinates, its commutation with taking a child ([liftc_child]), the bridge to
+      [isAncestor]/[calcNextPosition]/[Parent]/[leftSib] on positions.
+    - Part 3: [sortK] of permutations, the hash-keyed map [map_put] as a set of entries.
+    - Part 4: the chain of one addition on the reference forest: [chain_at], [step_data]; the
+      lifted coordinate of the carried segment ([lift_chain]) and of a popped root
+      ([lift_popped]); [add_chain] on hashes and positions ([add_chain_spine]); [add_nodes] along
+      the spine of the merged tree ([merged_sets]); the invariant [UU]: after [i] additions the
+      map holds the [add_nodes] of the trees built so far, at the coordinates they have in the
+      final forest ([step_sets], [add_loop_collect]); T3.
+    - Part 4b: positions of the declarative list are pairwise distinct.
+    - Part 5: closed forms, the free algebra, examples. *)
 From Utreexo Require Import Spec.Forest Model.Verify Spec.Term.
 From Utreexo Require Import Proofs.SpecBasics Proofs.StumpAdd Proofs.UtilsGeom Proofs.UtilsGeom2
   Proofs.LayoutStruct.
